@@ -11,23 +11,31 @@ open Zarrs Zarrs.Codec
 
 def wfBytes (b : Bytes) : Prop := ∀ x ∈ b, x < 256
 
-theorem crc32c_dec_enc (validate : Bool) (b : Bytes) : crc32cDec validate (crc32cEnc b) = .ok b := by
-  sorry
-theorem crc32c_size (b : Bytes) : (crc32cEnc b).length = b.length + 4 := by
-  sorry
-theorem fletcher32_dec_enc (validate : Bool) (b : Bytes) : fletcher32Dec validate (fletcher32Enc b) = .ok b := by
-  sorry
-theorem fletcher32_size (b : Bytes) : (fletcher32Enc b).length = b.length + 4 := by
-  sorry
+theorem crc32c_dec_enc (validate : Bool) (b : Bytes) : crc32cDec validate (crc32cEnc b) = .ok b :=
+  checksumDec_enc crc32c validate b
+theorem crc32c_size (b : Bytes) : (crc32cEnc b).length = b.length + 4 :=
+  checksumEnc_length crc32c b
+theorem fletcher32_dec_enc (validate : Bool) (b : Bytes) : fletcher32Dec validate (fletcher32Enc b) = .ok b :=
+  checksumDec_enc fletcher32 validate b
+theorem fletcher32_size (b : Bytes) : (fletcher32Enc b).length = b.length + 4 :=
+  checksumEnc_length fletcher32 b
 
 /-- `bytes`: decoding the encoding is the identity on whole elements, for either byte order; length preserved -/
 theorem bytes_dec_enc (big : Bool) (es : Nat) (b : Bytes) (h : es = 0 ∨ b.length % es = 0) :
-    bytesDec big es (bytesEnc big es b) = b ∧ (bytesEnc big es b).length = b.length := by
-  sorry
+    bytesDec big es (bytesEnc big es b) = b ∧ (bytesEnc big es b).length = b.length :=
+  bytes_dec_enc' big es b h
+
+example : bytesEnc true 2 [1, 2, 3, 4, 5, 6] = [2, 1, 4, 3, 6, 5] := by decide
+example : bytesDec true 2 (bytesEnc true 2 [1, 2, 3, 4, 5, 6]) = [1, 2, 3, 4, 5, 6] :=
+  (bytes_dec_enc true 2 [1, 2, 3, 4, 5, 6] (by decide)).1
+example : bytesDec true 0 (bytesEnc true 0 [1, 2, 3]) = [1, 2, 3] := (bytes_dec_enc true 0 [1, 2, 3] (by decide)).1
 
 theorem shuffle_dec_enc (es : Nat) (b e : Bytes) (h : shuffleEnc es b = some e) :
-    shuffleDec es e = some b ∧ e.length = b.length := by
-  sorry
+    shuffleDec es e = some b ∧ e.length = b.length :=
+  shuffle_dec_enc' es b e h
+
+example : shuffleDec 2 [1, 3, 5, 2, 4, 6] = some [1, 2, 3, 4, 5, 6] :=
+  (shuffle_dec_enc 2 [1, 2, 3, 4, 5, 6] [1, 3, 5, 2, 4, 6] (by decide)).1
 
 /-- `transpose`: the advertised encoded shape is the permuted shape, the decoded shape of the encoded shape is
 the original, the number of elements is preserved, and decoding the encoding returns the chunk -/
@@ -36,32 +44,66 @@ theorem transpose_dec_enc {α} [Inhabited α] (order : List Nat) (shape : Shape)
     transposeDec order shape (transposeEnc order shape xs) = xs ∧
     (transposeEnc order shape xs).length = prod (permute shape order) ∧
     prod (permute shape order) = prod shape ∧
-    permute (permute shape order) (inverseOrder order) = shape := by
-  sorry
+    permute (permute shape order) (inverseOrder order) = shape :=
+  transpose_dec_enc' order shape xs ho hx
+
+example : transposeEnc [2, 0, 1] [2, 1, 3] [10, 11, 12, 13, 14, 15] = [10, 13, 11, 14, 12, 15] := by decide
+example : transposeDec [2, 0, 1] [2, 1, 3] (transposeEnc [2, 0, 1] [2, 1, 3] [10, 11, 12, 13, 14, 15]) =
+    [10, 11, 12, 13, 14, 15] :=
+  (transpose_dec_enc [2, 0, 1] [2, 1, 3] [10, 11, 12, 13, 14, 15] (by decide) (by decide)).1
+/-- rank 0 and empty shapes are covered -/
+example : transposeDec [] [] (transposeEnc [] [] [7]) = [7] := (transpose_dec_enc [] [] [7] (by decide) (by decide)).1
+example : transposeDec [1, 0] [0, 5] (transposeEnc [1, 0] [0, 5] ([] : List Nat)) = [] :=
+  (transpose_dec_enc [1, 0] [0, 5] [] (by decide) (by decide)).1
 
 /-- the fill-value mapping of `transpose` agrees with encoding: an all-fill chunk encodes to an all-fill chunk -/
 theorem transpose_fill {α} [Inhabited α] (order : List Nat) (shape : Shape) (f : α)
     (ho : validOrder order shape.length = true) :
-    transposeEnc order shape (List.replicate (prod shape) f) = List.replicate (prod (permute shape order)) f := by
-  sorry
+    transposeEnc order shape (List.replicate (prod shape) f) = List.replicate (prod (permute shape order)) f :=
+  transpose_fill' order shape f ho
 
-theorem crc32c_lawful : crc32cCodec.Lawful := by
-  sorry
-theorem fletcher32_lawful : fletcher32Codec.Lawful := by
-  sorry
-theorem shuffle_lawful (es : Nat) : (shuffleCodec es).Lawful := by
-  sorry
+example : transposeEnc [2, 0, 1] [2, 1, 3] (List.replicate (prod [2, 1, 3]) 9) = List.replicate (prod [3, 2, 1]) 9 :=
+  transpose_fill [2, 0, 1] [2, 1, 3] 9 (by decide)
+
+theorem crc32c_lawful : crc32cCodec.Lawful := checksumCodec_lawful crc32c
+theorem fletcher32_lawful : fletcher32Codec.Lawful := checksumCodec_lawful fletcher32
+theorem shuffle_lawful (es : Nat) : (shuffleCodec es).Lawful := shuffleCodec_lawful es
 
 /-- **chain composition**: any chain of lawful bytes-to-bytes codecs inverts and honours the composed size -/
 theorem chain_dec_enc (cs : List B2B) (hl : ∀ c ∈ cs, c.Lawful) (b e : Bytes) (h : chainEnc cs b = some e) :
-    chainDec cs e = some b := by
-  sorry
+    chainDec cs e = some b :=
+  chain_dec_enc' cs hl b e h
+
+private theorem exChain_lawful : ∀ c ∈ [shuffleCodec 2, crc32cCodec, fletcher32Codec], c.Lawful := by
+  intro c hc
+  simp only [List.mem_cons, List.not_mem_nil, or_false] at hc
+  rcases hc with rfl | rfl | rfl
+  · exact shuffle_lawful 2
+  · exact crc32c_lawful
+  · exact fletcher32_lawful
+
+example : chainEnc [shuffleCodec 2, crc32cCodec, fletcher32Codec] [1, 2, 3, 4] =
+    some [1, 3, 2, 4, 253, 134, 211, 159, 45, 212, 197, 216] := by decide
+example : chainDec [shuffleCodec 2, crc32cCodec, fletcher32Codec]
+    [1, 3, 2, 4, 253, 134, 211, 159, 45, 212, 197, 216] = some [1, 2, 3, 4] :=
+  chain_dec_enc _ exChain_lawful [1, 2, 3, 4] _ (by decide)
 
 theorem chain_size (cs : List B2B) (hl : ∀ c ∈ cs, c.Lawful)
     (hmono : ∀ c ∈ cs, ∀ m n, m ≤ n → (c.size m).1 ≤ (c.size n).1)
     (b e : Bytes) (h : chainEnc cs b = some e) :
-    e.length ≤ (chainSize cs b.length).1 ∧ ((chainSize cs b.length).2 = true → e.length = (chainSize cs b.length).1) := by
-  sorry
+    e.length ≤ (chainSize cs b.length).1 ∧ ((chainSize cs b.length).2 = true → e.length = (chainSize cs b.length).1) :=
+  chain_size' cs hl hmono b e h
+
+example : ([1, 3, 2, 4, 253, 134, 211, 159, 45, 212, 197, 216] : Bytes).length ≤
+    (chainSize [shuffleCodec 2, crc32cCodec, fletcher32Codec] ([1, 2, 3, 4] : Bytes).length).1 :=
+  (chain_size [shuffleCodec 2, crc32cCodec, fletcher32Codec] exChain_lawful (by
+    intro c hc m n hmn
+    simp only [List.mem_cons, List.not_mem_nil, or_false] at hc
+    rcases hc with rfl | rfl | rfl
+    · exact hmn
+    · exact Nat.add_le_add_right hmn 4
+    · exact Nat.add_le_add_right hmn 4) [1, 2, 3, 4] _ (by decide)).1
+example : chainSize [shuffleCodec 2, crc32cCodec, fletcher32Codec] 4 = (12, true) := by decide
 
 /-- **sharding**: decoding an encoded shard returns every inner chunk, for either index location, either index
 byte order, with or without the index checksum; the shard's length is the sum of the stored chunks plus the index -/
@@ -69,20 +111,68 @@ theorem shard_dec_enc (c : Shard.Cfg) (chunks : List (Option Bytes)) (hn : chunk
     (hb : ∀ ch ∈ chunks, ∀ b, ch = some b → wfBytes b)
     (hsmall : (chunks.filterMap id).flatten.length + Shard.indexSize c < Shard.sentinel) :
     Shard.decode c true (Shard.encode c chunks) = .ok chunks ∧
-    (Shard.encode c chunks).length = ((chunks.filterMap id).map List.length).sum + Shard.indexSize c := by
-  sorry
+    (Shard.encode c chunks).length = ((chunks.filterMap id).map List.length).sum + Shard.indexSize c :=
+  have _ := hb   -- not needed: the index words are produced by `w64`, the data is only sliced
+  ⟨Shard.shard_decode c true chunks hn hsmall, Shard.shard_length c chunks hn⟩
+
+/-- example shard: a stored chunk, a missing chunk, an empty stored chunk -/
+private def exChunks : List (Option Bytes) := [some [1, 2, 3], none, some []]
+
+private theorem exChunks_wf : ∀ ch ∈ exChunks, ∀ b, ch = some b → wfBytes b := by
+  intro ch hc b hb x hx
+  simp only [exChunks, List.mem_cons, List.not_mem_nil, or_false] at hc
+  rcases hc with rfl | rfl | rfl
+  · cases hb
+    simp only [List.mem_cons, List.not_mem_nil, or_false] at hx
+    omega
+  · cases hb
+  · cases hb
+    cases hx
+
+/-- index at the end, big-endian, with checksum -/
+example : Shard.encode ⟨3, true, true, true⟩ exChunks =
+    [1, 2, 3, 0, 0, 0, 0, 0, 0, 0, 0, 0, 0, 0, 0, 0, 0, 0, 3,
+     255, 255, 255, 255, 255, 255, 255, 255, 255, 255, 255, 255, 255, 255, 255, 255,
+     0, 0, 0, 0, 0, 0, 0, 3, 0, 0, 0, 0, 0, 0, 0, 0, 242, 0, 14, 154] := by decide +kernel
+example : Shard.decode ⟨3, true, true, true⟩ true (Shard.encode ⟨3, true, true, true⟩ exChunks) = .ok exChunks :=
+  (shard_dec_enc ⟨3, true, true, true⟩ exChunks (by decide) exChunks_wf (by decide)).1
+/-- index at the start, little-endian, without checksum -/
+example : Shard.decode ⟨3, false, false, false⟩ true (Shard.encode ⟨3, false, false, false⟩ exChunks) = .ok exChunks :=
+  (shard_dec_enc ⟨3, false, false, false⟩ exChunks (by decide) exChunks_wf (by decide)).1
+/-- index at the start, big-endian, with checksum -/
+example : Shard.decode ⟨3, false, true, true⟩ true (Shard.encode ⟨3, false, true, true⟩ exChunks) = .ok exChunks :=
+  (shard_dec_enc ⟨3, false, true, true⟩ exChunks (by decide) exChunks_wf (by decide)).1
 
 /-- the bound `encode_bounded` pre-allocates from: `n * maxChunk + indexSize` -/
 theorem shard_size_bound (c : Shard.Cfg) (chunks : List (Option Bytes)) (hn : chunks.length = c.nChunks) (m : Nat)
     (hm : ∀ ch ∈ chunks, ∀ b, ch = some b → b.length ≤ m) :
     (Shard.encode c chunks).length ≤ c.nChunks * m + Shard.indexSize c := by
-  sorry
+  rw [Shard.shard_length c chunks hn, ← Shard.dataOf_length, ← hn]
+  exact Nat.add_le_add_right (Shard.dataOf_length_le chunks m hm) _
+
+private theorem exChunks_le : ∀ ch ∈ exChunks, ∀ b, ch = some b → b.length ≤ 3 := by
+  intro ch hc b hb
+  simp only [exChunks, List.mem_cons, List.not_mem_nil, or_false] at hc
+  rcases hc with rfl | rfl | rfl <;> cases hb <;> decide
+
+example : (Shard.encode ⟨3, true, true, true⟩ exChunks).length ≤ 3 * 3 + Shard.indexSize ⟨3, true, true, true⟩ :=
+  shard_size_bound ⟨3, true, true, true⟩ exChunks (by decide) 3 exChunks_le
+example : (Shard.encode ⟨3, false, false, false⟩ exChunks).length ≤ 3 * 3 + Shard.indexSize ⟨3, false, false, false⟩ :=
+  shard_size_bound ⟨3, false, false, false⟩ exChunks (by decide) 3 exChunks_le
 
 /-- what zarrs writes is a legal shard of the format -/
 theorem shard_encode_legal (c : Shard.Cfg) (chunks : List (Option Bytes)) (hn : chunks.length = c.nChunks)
     (hb : ∀ ch ∈ chunks, ∀ b, ch = some b → wfBytes b)
     (hsmall : (chunks.filterMap id).flatten.length + Shard.indexSize c < Shard.sentinel) :
-    Shard.Legal c (Shard.encode c chunks) chunks ∧ Shard.wellFormed c (Shard.encode c chunks) = true := by
-  sorry
+    Shard.Legal c (Shard.encode c chunks) chunks ∧ Shard.wellFormed c (Shard.encode c chunks) = true :=
+  have _ := hb
+  ⟨Shard.shard_legal c chunks hn hsmall, Shard.shard_wellFormed c chunks hn hsmall⟩
+
+example : Shard.Legal ⟨3, true, true, true⟩ (Shard.encode ⟨3, true, true, true⟩ exChunks) exChunks :=
+  (shard_encode_legal ⟨3, true, true, true⟩ exChunks (by decide) exChunks_wf (by decide)).1
+example : Shard.Legal ⟨3, false, true, true⟩ (Shard.encode ⟨3, false, true, true⟩ exChunks) exChunks :=
+  (shard_encode_legal ⟨3, false, true, true⟩ exChunks (by decide) exChunks_wf (by decide)).1
+example : Shard.wellFormed ⟨3, true, true, true⟩ (Shard.encode ⟨3, true, true, true⟩ exChunks) = true := by decide +kernel
+example : Shard.wellFormed ⟨3, false, false, false⟩ (Shard.encode ⟨3, false, false, false⟩ exChunks) = true := by decide
 
 end Zarrs.C03
